@@ -14,7 +14,7 @@ that the palette indices of the log scalers can be compared exactly, and `scale`
 against an all-native evaluation.  `math.Pow` (heatmap legend of a
 log scale) is not ported: both sides replace that one line by `~`.
 
-Ops: `scale`, `scalego`, `log`, `barw`, `stack`, `cell`, `strlen`, `fmtseq`, `hdr`, `tablew`, `histow`, `render histo|histo2|bars|table|heat|spark|reduce`.
+Ops: `scname`, `scale`, `scalego`, `log`, `barw`, `stack`, `cell`, `strlen`, `fmtseq`, `hdr`, `tablew`, `histow`, `render histo|histo2|bars|table|heat|spark|reduce`.
 -/
 namespace Rare.Drv.C14
 open Rare Rare.C14 Rare.C20 Rare.Proto
@@ -325,6 +325,15 @@ def handle : List String → String
         let vt ← h.writeFooter vt 0 (ascii "F")
         pure (okLines vt))
     | _, _, _, _, _, _, _ => "bad-args"
+  | ["scname", name] =>
+    match Hex.dec name with
+    | some b =>
+      match scalerByName b with
+      | some .linear => "ok linear"
+      | some .log2 => "ok log2"
+      | some .log10 => "ok log10"
+      | none => "ok none"
+    | none => "bad-args"
   | ["scale", sc, v, mn, mx] =>
     match scaler? sc, v.toInt?, mn.toInt?, mx.toInt? with
     | some k, some v, some mn, some mx =>
